@@ -27,6 +27,8 @@ SValidDemands(e) ==
       rt == e.back.ok /\ VerOf(e.back.v) = v
   IN <<
     <<"C03.fmt",       e.text = txt /\ e.texttag = FmtSem(v, TRUE)>>,
+    <<"C03.stable",    e.mt = txt /\ e.mt2 = txt>>,
+    <<"C03.held",      e.held = txt>>,
     <<"C03.valid",     e.valid = ValidVer(v)>>,
     <<"C03.validerr",  ~e.valid => (ValidErr(v) \in SeqRange(e.is))>>,
     <<"C03.validlink", fits => (e.valid = rt)>>
